@@ -72,7 +72,8 @@ ParseInt(s) ==
   IN IF Len(d) = 0 \/ \E i \in 1..Len(d) : d[i] \notin Digits THEN [kind |-> "bad", v |-> 0]
      ELSE IF Len(d) > 8 THEN [kind |-> "unknown", v |-> 0]
      ELSE [kind |-> "int", v |-> IF signed /\ s[1] = 45 THEN 0 - DecVal(d, 1, 0) ELSE DecVal(d, 1, 0)]
-\* an Integer-or-String hint: "none" | "int" | "bad" | "unknown" (a value of another type: outside the property)
+\* an Integer-or-String hint: "none" | "int" | "bad" | "unknown" (a value of another type: outside the property; or an
+\* integer 2^a + i beyond this model's integers, hint type 7: the reaction is not fixed, but T and D still bind)
 IntHint(hs, key) ==
   IF ~HasHint(hs, key) THEN [kind |-> "none", v |-> 0]
   ELSE LET x == HintOf(hs, key) IN
